@@ -196,6 +196,7 @@ def random_schedule(rng, nsess: int, ncmds: int, idle: bool = False,
                 run.issue(s, ('done',))
                 log.append(('issue', s, ('done',)))
             run.quiesce()
+        run.unanswered_idle()
         run.probe()
         log.append(('probe',))
         return log
@@ -300,7 +301,7 @@ def main(prop: str, tier: str) -> int:
         nrand = 900 if quick else 9000
     for i in range(nrand):
         nsess = 2 if rng.random() < 0.7 else 3
-        idle = prop == 'C16' or rng.random() < (0.4 if prop == 'C01' else 0.25)
+        idle = prop == 'C16' or rng.random() < (0.5 if prop == 'C01' else 0.25)
         if prop == 'C16':
             sessions, drive = random_schedule(
                 rng, nsess, rng.randint(3, 8), idle=True, idle_prob=0.7,
@@ -322,7 +323,7 @@ def main(prop: str, tier: str) -> int:
                          'uidexpunge': 0, 'check': 0})
         else:
             sessions, drive = random_schedule(rng, nsess, rng.randint(3, 7), idle=idle,
-                                              gate_idlers=rng.random() < 0.3,
+                                              gate_idlers=rng.random() < (0.6 if prop == 'C01' else 0.3),
                                               micro=rng.choice([0.0, 0.5, 0.9]) if idle else
                                               rng.choice([0.0, 0.0, 0.5]))
         sr = SyncRun(init_flags=[rng.choice([(), (), ('\\Seen',), ('\\Deleted',)])
@@ -464,8 +465,19 @@ def pair_histories(run, rng, quick, traces, meta) -> None:
     hist = [(x, y) for x in MUTS for y in MUTS]
     triples = [(x, y, z) for x in MUTS for y in MUTS for z in MUTS]
     rng.shuffle(triples)
-    hist = hist + triples[:120 if quick else 2500]
-    for h in hist:
+    hist = [(h, 'aba') for h in hist + triples[:120 if quick else 2500]]
+    # a removes messages; b (not told) runs a sequence-number command that holds the EXPUNGEs
+    # back and THEN, as its very next command, one that takes sequence numbers again
+    removers = [('expunge',), ('uidexpunge', '101'), ('uidexpunge', '101:102'),
+                ('move', True, '101:103', 'Box'), ('move', False, '1', 'Box')]
+    holders = [('fetch', False, '1:*', False), ('fetch', False, '2:3', True),
+               ('store', False, '3', '+', False, ('\\Flagged',)),
+               ('store', False, '1:*', '+', True, ('\\Seen',)), ('search', False, 'ALL')]
+    users = [('copy', False, '3', 'Box'), ('move', False, '3', 'Box'), ('copy', False, '2:4', 'Box'),
+             ('move', False, '4,1', 'Box'), ('store', False, '3', '+', False, ('\\Answered',)),
+             ('fetch', False, '3:4', False), ('search', False, '3:4')]
+    hist += [((x, y, z), 'abb') for x in removers for y in holders for z in users]
+    for h, who in hist:
         sr = SyncRun(init_flags=(('\\Deleted',), ('\\Deleted',), (), ()), sessions=['a', 'b', 'c'],
                      controlled=False, claim_recent=False)
         log = []
@@ -486,7 +498,7 @@ def pair_histories(run, rng, quick, traces, meta) -> None:
                 cmd(s, ('select', 'INBOX'))
                 cmd(s, ('fetch', False, '1:*', False))
             for i, c in enumerate(h):
-                cmd('ab'[i % 2], c)
+                cmd(who[i], c)
             sr.probe()
             sr.probe()
         finally:
